@@ -10,6 +10,8 @@ def dispatch (line : String) : String :=
   let l := line.trimAscii.toString
   match l.splitOn " " with
   | "step" :: _ => handleStep (l.drop 5).toString
+  | "paperseq" :: _ => handlePaperSeq (l.drop 9).toString
+  | "session" :: _ => handleSession (l.drop 8).toString
   | "sched" :: _ => handleSched (l.drop 6).toString
   | "stack" :: _ => handleStack (l.drop 6).toString
   | "select" :: _ => handleSelect (l.drop 7).toString
